@@ -5,7 +5,7 @@ From Coq Require Import NArith List Bool.
 Import ListNotations.
 From Coq Require Import ZArith.
 From CXV Require Import Gen.TokTy Gen.ParserTables Parse.Balanced Gen.Blocks Parse.BlocksSM.
-From CXV Require Import Base.Regex Base.Cost Gen.LexRules Lex.PlyLoop Gen.StreamTables Stream.TokBuf Fmt.TokFmt PP.Filters Misc.ReprModel Gen.Schema Parse.Fold Parse.Declarator Parse.DeclSpec Parse.EnumList Parse.BaseClause Parse.NsHeader.
+From CXV Require Import Base.Regex Base.Cost Gen.LexRules Lex.PlyLoop Gen.StreamTables Stream.TokBuf Fmt.TokFmt PP.Filters Misc.ReprModel Gen.Schema Parse.Fold Parse.Declarator Parse.DeclSpec Parse.EnumList Parse.BaseClause Parse.NsHeader Parse.Specs Parse.VarStmt.
 Open Scope N_scope.
 
 Definition nlen {A} (l : list A) : N := N.of_nat (length l).
@@ -473,8 +473,34 @@ Definition run_ns_header (args : list N) : list N :=
   | [] => [1; 0]
   end.
 
+(* 88: the specifier loop of _parse_type.  Output: 0, rest length, name, then the nine flags *)
+Definition enc_mods (m : mods) : list N :=
+  [bN (m_const m); bN (m_volatile m); bN (m_constexpr m); bN (m_extern m); bN (m_inline m); bN (m_static m);
+   bN (m_explicit m); bN (m_virtual m); bN (m_mutable m)].
+Definition run_specs (args : list N) : list N :=
+  match parse_specs (dec_tks args) with
+  | DOk (m, n, rest) => 0 :: nlen rest :: n :: enc_mods m
+  | DErr e => [1; e]
+  end.
+
+(* 89: a whole variable statement: declarator budget, then tokens *)
+Definition run_var_stmt (args : list N) : list N :=
+  match args with
+  | n :: r =>
+      let toks := dec_tks r in
+      match var_stmt (N.to_nat n) (4 * length toks + 8) toks with
+      | DOk (m, l, rest) =>
+          0 :: nlen rest :: nlen l :: enc_mods m ++
+            flat_map (fun p => let e := enc_ty (snd p) in fst p :: nlen e :: e) l
+      | DErr e => [1; e]
+      end
+  | [] => [1; 0]
+  end.
+
 Definition run_case (cmd : N) (args : list N) : list N :=
   match cmd, args with
+  | 89, _ => run_var_stmt args
+  | 88, _ => run_specs args
   | 87, _ => run_ns_header args
   | 86, _ => run_alias args
   | 85, _ => run_bases args
